@@ -52,6 +52,28 @@ CLAIMS = {
         "Strict vs non-strict comparison is not judged; BalancedIncrementalQuantileFilter is excluded (not budget-enforcing).",
         "DESIGN.md section 3 C04",
     ),
+    "C07": (
+        "path-sensitive definite assignment over the 3x3 argument split, boolean-by-construction typing of the availability mask, loop dependence/order rules, syntactic termination classes for while loops",
+        "Decides: both base-class helpers bind their results on every feasible candidates x annotators combination and clip the batch size; every definition of the availability mask is boolean by construction; "
+        "unavailable pairs are NaN before combination and every chosen pair is masked in all later steps before the next selection; every while loop of the package is in a syntactically terminating class; "
+        "sample indices are translated through the mapping and the annotator column is not. That n_annotators_per_sample is honoured numerically is not decided.",
+        "R7.4 is a proof obligation over two recognised loop classes, not a proof of divergence.",
+        "DESIGN.md section 3 C07",
+    ),
+    "C08": (
+        "abstract index-space typing (XROW / CAND / MASK(m)) of arrays and positions with one-level callee summaries",
+        "Decides index-space agreement where both sides are known (subscripts and (array, position) pairs passed to project helpers) and that the raw candidates parameter is used only for representation tests "
+        "after _transform_candidates. Restriction invariance and permutation equivariance of the numbers are not decided.",
+        "Spaces are inferred only from the idioms listed in the checker; unknown never fires (few pairs are typed on today's tree).",
+        "DESIGN.md section 3 C08",
+    ),
+    "C09": (
+        "who-passes-the-sentinel rule over all label-partitioning call sites, constructions and label fillers",
+        "Decides: every call of a label-partitioning/aggregating utility on something other than model predictions binds missing_label explicitly (literal -1 only on encoder output); "
+        "label fillers concatenated to y are not NaN literals; project models constructed inside strategies receive missing_label. Equality of outputs under re-encoding is not decided.",
+        "Calls on model predictions and pure validators are outside the rule.",
+        "DESIGN.md section 3 C09",
+    ),
     "C10": (
         "must-append path analysis, loop-carried-definition check of update guards, sibling agreement of simulation vs commit transition operators, RNG mirror via effect analysis",
         "Decides necessary structural conditions: lists handed to budget_manager_.update with the caller's indices get exactly one append per candidate on every path; "
@@ -60,6 +82,20 @@ CLAIMS = {
         "Chunking invariance as an equality of whole runs is not decided.",
         "RandomVariableUncertaintyBudgetManager is outside the chunking-invariance claim and not judged by R10.2.",
         "DESIGN.md section 3 C10",
+    ),
+    "C15": (
+        "structural rules on predict/sample_y, MRO resolution, definite assignment of fallback attributes",
+        "Decides: predict binds one predict_target_distribution result and returns its mean/std/entropy under the matching flags; every concrete probabilistic regressor resolves predict to that implementation; "
+        "sample_y draws (n_samples, len(X)) and transposes, forwarding random_state; the NotFittedError fallbacks are built from _label_mean/_label_std which _fit defines on all paths with defaults 0/1.",
+        "scipy.stats frozen distributions are coherent; numbers are not decided.",
+        "DESIGN.md section 3 C15",
+    ),
+    "C16": (
+        "structural complement/dispatch/symmetry rules on the label predicates and the encoder",
+        "Decides: is_labeled is the inversion of is_unlabeled with both arguments forwarded; the index helpers are argwhere of the respective predicate; is_unlabeled has exactly the isnan path (under a float-NaN sentinel test) and the cast-equality path, "
+        "both dominated by the sentinel checks; transform/inverse_transform partition by m and ~m with swapped sentinel pairs. The round trip as values and numpy casting are not decided.",
+        "numpy comparison/casting semantics are trusted.",
+        "DESIGN.md section 3 C16",
     ),
     "C17": (
         "path-sensitive must-write analysis with value-set facts; dominance of the zeroing store; structural rules on majority_vote",
@@ -87,6 +123,21 @@ CLAIMS = {
         "Table of external estimators that draw in fit; random_state=None chosen by the user is outside the premise.",
         "DESIGN.md section 3 C06",
     ),
+    "C11": (
+        "source -> sanitiser -> sink path analysis (class index must be decoded), must-normalise path analysis of predict_proba, sibling-statement rules",
+        "Decides: in every predict a class index selected over costs/probabilities is decoded (inverse_transform / classes_[.]) before it is returned on every path; every predict_proba return path passed a row normaliser "
+        "(own row sum with keepdims, softmax, uniform constant, tiled counts) or delegates; the zero-row fallback exists; the cost matrix is permuted on both axes by the same argsort; estimator columns are re-mapped by searchsorted. "
+        "Finiteness, non-negativity and sums as numbers are not decided.",
+        "The wrapped estimator's predict returns labels and its predict_proba is row-normalised.",
+        "DESIGN.md section 3 C11",
+    ),
+    "C12": (
+        "path-sensitive mask-flow analysis (which per-sample arrays are restricted to labeled rows) over the fit functions of the supervised wrappers",
+        "Decides: every per-sample array reaching the wrapped estimator's fit/partial_fit, stored as training data, or passed to a call together with a masked array is subscripted by the labeled mask on every path; "
+        "PWC/MixtureModel obtain label statistics only through compute_vote_vectors with the encoder sentinel. Equality of the two fits as numbers is not decided.",
+        "The wrapped estimator's fit depends only on the arrays it is given.",
+        "DESIGN.md section 3 C12",
+    ),
     "C13": (
         "interprocedural alias/ownership analysis over every public method of every estimator class (class-wide heap)",
         "Decides the parameters-are-never-rewritten clause: in every public method except __init__/set_params of all estimator classes, "
@@ -94,6 +145,21 @@ CLAIMS = {
         "Equality of a refitted object with a fresh clone as numbers is not decided.",
         "Aliasing is under-approximated; constructor parameters = attributes stored by any __init__ along the MRO.",
         "DESIGN.md section 3 C13",
+    ),
+    "C19": (
+        "delegation-name agreement, co-assignment groups via must/may attribute-store path analysis, copy discipline, sibling diff",
+        "Decides: predict/predict_proba/predict_freq delegate to the method of their own name on every path; the current and base training triples are stored all-or-none on every path; base state is always copied; "
+        "the three predict* siblings are identical up to the delegated name with the NaN guard dominating the precomputed prediction; the kernel comes from the wrapped classifier's metric. Equality with a retrained reference is not decided.",
+        "-",
+        "DESIGN.md section 3 C19",
+    ),
+    "C20": (
+        "structural/dominance rules on the three wrappers plus the shared loop and NaN-discipline rules",
+        "Decides: the parallel wrapper queries with batch_size=1/return_utilities=True, concatenates row 0 of the outputs in chunk order and selects by simple_batch; the sub-sampling wrapper draws without replacement, "
+        "writes -inf before the subset's utilities and translates indices on the row-removal and feature-row paths; the single-annotator wrapper forces the inner picks to the top before the ordinal rank transform, "
+        "masks unavailable pairs before adding and masks chosen pairs in all later steps. Numerical equality of wrapped and unwrapped utilities is not decided.",
+        "joblib.Parallel returns results in submission order.",
+        "DESIGN.md section 3 C20",
     ),
 }
 
